@@ -253,6 +253,13 @@ def step (s : St) (line : String) : St × String :=
       | some (some (c, _)) => (s, c)
       | none => (s, "bad-op")
     | _, _ => (s, "bad-op")
+  | ["stalecache", h, vars] =>
+    -- the harness uses its count cache for another variable count; no effect on the model
+    let known := match s.kind with
+      | .bdd => s.hb.contains h
+      | .bcdd => s.hc.contains h
+      | .zbdd => s.hz.contains h
+    if known && vars.toNat?.isSome then (s, "ok") else (s, "bad-op")
   | ["pickuni", h, seed, reps] =>
     let known := match s.kind with
       | .bdd => s.hb.contains h
